@@ -165,6 +165,9 @@ func DecodeLength(b io.ByteReader) (n, bu int, err error) {
 		}
 
 		multiplier += 7
+		if multiplier > 21 {
+			return 0, bu, ErrMalformedVariableByteInteger // [MQTT-1.5.5-1] at most four bytes
+		}
 		bu++
 	}
 
